@@ -171,6 +171,10 @@ class NXPLL(LiteXModule):
         config = {}
         for clki_div in range(*self.clki_div_range):
             config["clki_div"] = clki_div
+            # Phase detector (VCO input) frequency must stay in the device range.
+            (vco_in_freq_min, vco_in_freq_max) = self.vco_in_freq_range
+            if not (vco_in_freq_min <= self.clkin_freq/clki_div <= vco_in_freq_max):
+                continue
             for clkfb_div in range(*self.clkfb_div_range):
                 all_valid = True
                 vco_freq = self.clkin_freq/clki_div*clkfb_div
